@@ -55,6 +55,9 @@ class Check:
 # ------------------------------------------------------------------ one run
 
 def _alarm(signum, frame):
+    if os.environ.get("VERIF_TRACE_TIMEOUT"):      # debugging aid: where was the run when its wall-clock guard fired
+        import traceback
+        sys.__stderr__.write("".join(traceback.format_stack(frame)[-14:]))
     raise RunTimeout()
 
 
